@@ -60,6 +60,13 @@ int sqfs_meta_reader_read(sqfs_meta_reader_t *m, void *data, size_t size)
 			((unsigned char *)data)[i] = ND_U8();
 	}
 #endif
+#ifdef VP_META_EXTDIR_ENTSIZE_BASE
+	/* shape restriction for the extended-directory index obligation: the name
+	   length word of an index entry (3rd, 5th ... read, u32 at offset 8) is
+	   confined to a window of 8 values around the growth boundary */
+	if (size == 12 && vp_meta_reads >= 3)
+		((unsigned int *)data)[2] = (VP_META_EXTDIR_ENTSIZE_BASE) + (ND_U32() & 7);
+#endif
 #ifdef VP_META_FORCE_U16
 	/* shape selection: the first 16 bit word of the first read (the inode
 	   type) is fixed by the obligation through a TYPED store so that symbolic
